@@ -99,7 +99,7 @@ def gen_case(rng: random.Random, tier: str) -> dict:
         "broken_page": broken,
         # the user does not wait for recovery: at about a quarter of the crash points a few
         # edits (incl. deleting / renaming pages) happen between the kill and the rerun
-        "between": [gen.gen_edit(rng, feats, _BETWEEN_WEIGHTS) for _ in range(rng.randint(1, 2))] if rng.random() < 0.6 else [{"e": "undo_everything"}],
+        "between": [gen.gen_edit(rng, feats, _BETWEEN_WEIGHTS) for _ in range(rng.randint(1, 2))] if rng.random() < 0.6 else [{"e": "undo_everything"} if rng.random() < 0.6 else {"e": "undo_everything", "some": rng.randrange(1 << 16)}],
         "between_salt": rng.randrange(4),
         # thorough: a second kill during the rerun at a seeded boundary, for a share of the crash points
         "second_crash": [rng.random() for _ in range(4)] if tier == "thorough" else [],
@@ -269,7 +269,7 @@ def execute(case: dict, scratch: str) -> dict:
                 if case["between"] and case["between"][0].get("e") == "undo_everything":
                     # the user undoes every edit made since the directory was last indexed:
                     # all pages are byte-identical to what the index was built from again
-                    reports = _undo_everything(twin, indexed_snapshot if case.get("prior") else None)
+                    reports = _undo_everything(twin, indexed_snapshot if case.get("prior") else None, case["between"][0].get("some"))
                 else:
                     reports = user.apply_edits(twin.zdir, case["between"], twin.day)
                 if any(r.get("applied") for r in reports):
@@ -315,20 +315,30 @@ def execute(case: dict, scratch: str) -> dict:
     return rec.result(first_violation)
 
 
-def _undo_everything(twin: core.Sim, snapshot: Optional[dict]) -> list[dict]:
+def _undo_everything(twin: core.Sim, snapshot: Optional[dict], some: Optional[int] = None) -> list[dict]:
+    """Every page (or, with `some`, a seeded half of the pages) goes back to the bytes the index was built from."""
     if not snapshot:
         return [{"applied": False, "why": "nothing was indexed before"}]
     now = ob.read_files(twin.zdir, (".zo",))
+    coin = random.Random(some)
     changed = False
     for rel in sorted(set(now) - set(snapshot)):
+        if some is not None and coin.random() < 0.5:
+            continue
         os.unlink(os.path.join(twin.zdir, rel))
         changed = True
     for rel, data in sorted(snapshot.items()):
+        if some is not None and coin.random() < 0.5:
+            continue
         if now.get(rel) != data:
             os.makedirs(os.path.dirname(os.path.join(twin.zdir, rel)), exist_ok=True)
             with core._real_open(os.path.join(twin.zdir, rel), "wb") as f:
                 f.write(data)
             changed = True
+    if some is not None and any(len(w) > 1 for w in _primary_zids(twin.zdir).values()):
+        # undoing half of a rename or of a cut-and-paste leaves the user with two copies of a
+        # note (same ZID twice): that is the user's doing, outside the statement -> undo the rest too
+        return _undo_everything(twin, snapshot)
     return [{"applied": changed, "undo": True, "deleted": True} if changed else {"applied": False}]
 
 
